@@ -116,6 +116,16 @@ Fixpoint drop_all (t : tables) (objs : list sock) : tables * list msg :=
   | o :: r => let '(t1, m1) := drop_sock t o in let '(t2, m2) := drop_all t1 r in (t2, m1 ++ m2)
   end.
 
+(* What of the destructors' messages reaches a peer when they run WITHOUT a current tokio runtime,
+   as they do in Rt::cancel_tasks (the old LocalSet is dropped outside of any runtime context):
+   a FIN / RST of a loopback stream (remote = the host itself) goes through send_loopback, which
+   returns at once when Handle::try_current() fails — nothing is spawned, nothing is sent.
+   (Both ends of a loopback stream are entries of the same host and are released by their own
+   objects' destructors.) *)
+Definition to_self (me : N) (m : msg) : bool :=
+  match m with MFin _ p | MRst _ p => rhost p =? me | MAckDropped _ => false end.
+Definition on_wire (me : N) (ms : list msg) : list msg := filter (fun m => negb (to_self me m)) ms.
+
 (* ---- what the host's stack does with a message from the network -------------------------
    Host::receive_from_network / Tcp::receive_from_network / Udp::receive_from_network at
    the level of table look-ups.  Since /repo 2342d63 Sim::step keeps calling it for a
